@@ -17,8 +17,9 @@ class Program:
     """A model program: events by label with (t, tgt, daemon, parent label, cancelled-by label).
     Pre-run events have parent 0.  Labels are 1..n in (model) creation order."""
 
-    def __init__(self, events, end_t=INF, expected=None, ambiguous=False):
+    def __init__(self, events, end_t=INF, expected=None, ambiguous=False, crashes=()):
         self.events = events            # list of dicts: t, tgt, d, par, cby
+        self.crashes = list(crashes)    # (tgt, t1, t2): target down from t1+1/2 tick to t2+1/2 tick
         self.end_t = end_t
         self.expected = expected        # model's delivered label sequence (or None)
         self.ambiguous = ambiguous      # model had a (t, idx) tie: its order is one of several
@@ -116,6 +117,15 @@ class World:
             self.shuffle_push.shuffle(pre)
         for ev in pre:
             sim.schedule(ev)
+        # injected node faults (what CrashNode does: a flag on the entity), half a tick off the grid so
+        # that no event of the program is due exactly at a window edge
+        for (tgt, t1, t2) in self.prog.crashes:
+            ent = self.ents.get(tgt)
+            if ent is None or self.step < 2:
+                continue
+            for t, flag in ((t1, True), (t2, False)):
+                sim.schedule(Event.once(time=Instant(t * self.step + self.step // 2), event_type="fault", daemon=True,
+                                        fn=lambda e, ent=ent, flag=flag: setattr(ent, "_crashed", flag)))
         if control:
             _ = sim.control
         self.sim = sim
@@ -170,8 +180,11 @@ def _run_with_injection(sim, w, rng, max_rounds=60):
         ctl.resume()
 
 
-def to_trace(tid, log, end_ns):
+def to_trace(tid, log, end_ns, targets=None, crashes=(), step=1):
     """Probe log -> trace dict for EngineTrace.tla; times are mapped to dense ranks."""
+    def down(e, t_ns):
+        name = (targets or {}).get(e)
+        return any(name == tg and t1 * step + step // 2 <= t_ns < t2 * step + step // 2 for tg, t1, t2 in crashes)
     times = set()
     for r in log:
         if r[0] == "c":
@@ -190,11 +203,12 @@ def to_trace(tid, log, end_ns):
         k = r[0]
         if k == "c":
             assert r[1] == len(evs) + 1
-            evs.append([rank[r[2]], bool(r[3]), bool(r[4]) if len(r) > 4 else bool(r[3])])
+            evs.append([rank[r[2]], bool(r[3]), bool(r[4]) if len(r) > 4 else bool(r[3]), bool(down(r[1], r[2]))])
         elif k == "p":
             out.append(["p", r[1], rank.get(r[2], 0)])
         elif k == "i":
-            out.append(["i", r[1], rank[r[2]] if r[2] in rank else 888888])
+            # a target without a clock (callback entities of Event.once) cannot be asked for `now`
+            out.append(["i", r[1], evs[r[1] - 1][0] if r[2] == -1 else rank[r[2]] if r[2] in rank else 888888])
         elif k == "end":
             out.append(["end", rank[r[1]]])
         else:
@@ -230,3 +244,13 @@ def random_program(rng: random.Random, *, max_pre=8, max_total=30, max_t=6, targ
                 e["cby"] = c
     end_t = INF if rng.random() < 0.5 else rng.randint(0, max_t + 1)
     return Program(evs, end_t)
+
+
+def add_crashes(prog: Program, rng: random.Random, max_t=6):
+    """Give some targets a crash window [t1+1/2, t2+1/2) ticks (restart inside the horizon)."""
+    names = sorted({e["tgt"] for e in prog.events})
+    for tg in names:
+        if rng.random() < 0.6:
+            t1 = rng.randint(0, max_t - 1)
+            prog.crashes.append((tg, t1, rng.randint(t1 + 1, max_t)))
+    return prog
